@@ -293,7 +293,7 @@ Record Inv (s : st) : Prop := {
   (* handles *)
   I_cs : open_send s = count_open SSend (hside s) (hclosed s) (nh s);
   I_cr : open_recv s = count_open SRecv (hside s) (hclosed s) (nh s);
-  I_ckh : forall t h x, phase_of s t = SendCk h x -> valid_h s h SSend = true;
+  I_ckh : forall t h x, phase_of s t = SendCk h x -> h < nh s /\ hside s h = SSend;
   (* data *)
   I_j1 : receivers s <> [] -> buffer s = [] /\ senders s = [];
   I_j2 : senders s <> [] -> xlt (length (buffer s)) (maxb s) = false;
@@ -325,3 +325,907 @@ Proof.
     try (intros; tauto).
   destruct m; cbn; lia.
 Qed.
+
+(* ---------- tactics ---------- *)
+Ltac get_inv I s :=
+  pose proof (I_nev s I) as Hnev; pose proof (I_inj s I) as Hinj; pose proof (I_rk s I) as Hrk;
+  pose proof (I_sk s I) as Hsk; pose proof (I_rnd s I) as Hrnd; pose proof (I_snd s I) as Hsnd;
+  pose proof (I_rpend s I) as Hrpend; pose proof (I_spend s I) as Hspend; pose proof (I_quiet s I) as Hquiet;
+  pose proof (I_rslot s I) as Hrslot; pose proof (I_cs s I) as Hcs; pose proof (I_cr s I) as Hcr;
+  pose proof (I_ckh s I) as Hckh; pose proof (I_j1 s I) as Hj1; pose proof (I_j2 s I) as Hj2;
+  pose proof (I_bound s I) as Hbound; pose proof (I_perm1 s I) as Hperm1; pose proof (I_perm2 s I) as Hperm2;
+  pose proof (I_sub s I) as Hsub; pose proof (I_nd s I) as Hnd; pose proof (I_fresh s I) as Hfresh;
+  pose proof (I_ck s I) as Hck; pose proof (I_ckinj s I) as Hckinj; pose proof (I_sw s I) as Hsw;
+  pose proof (I_ack s I) as Hack; pose proof (I_infl s I) as Hinfl; pose proof (I_inflnd s I) as Hinflnd;
+  pose proof (I_filled s I) as Hfilled; pose proof (I_senq s I) as Hsenq; pose proof (I_renq s I) as Hrenq;
+  pose proof (I_eos s I) as Heos; pose proof (I_brk s I) as Hbrk; pose proof (I_wr s I) as Hwr;
+  pose proof (I_ws s I) as Hws.
+
+(* case analysis on every `upd f k v x` in hypotheses and goal *)
+Ltac upd_cases k :=
+  repeat match goal with
+  | H : context [upd ?f k ?v k] |- _ => rewrite (upd_same f k v) in H
+  | H : context [upd ?f k ?v ?x] |- _ =>
+      destruct (Nat.eq_dec x k) as [->|?];
+      [rewrite (upd_same f k v) in * | rewrite (upd_other f k v x) in * by assumption]
+  | |- context [upd ?f k ?v k] => rewrite (upd_same f k v)
+  | |- context [upd ?f k ?v ?x] =>
+      destruct (Nat.eq_dec x k) as [->|?];
+      [rewrite (upd_same f k v) in * | rewrite (upd_other f k v x) in * by assumption]
+  end.
+
+Ltac auto_upd k := try (intros; upd_cases k; cbn in *; try discriminate; try congruence; eauto; fail).
+
+Lemma ex_phase_keep (ph : tid -> phase) t0 p P :
+  (exists t, ph t = P) -> ph t0 <> P -> exists t, upd ph t0 p t = P.
+Proof.
+  intros [t H] Hne. exists t. rewrite upd_other; [exact H|]. intros ->. contradiction.
+Qed.
+
+Lemma ex_phase_back (ph : tid -> phase) t0 p P :
+  (exists t, upd ph t0 p t = P) -> p <> P -> exists t, ph t = P.
+Proof.
+  intros [t H] Hne. exists t. destruct (Nat.eq_dec t t0) as [->|Hn].
+  - rewrite upd_same in H. contradiction.
+  - now rewrite upd_other in H by assumption.
+Qed.
+Lemma begin_send_inv s t h x :
+  Inv s -> phase_of s t = Idle -> h < nh s -> hside s h = SSend -> nitem s <= x ->
+  Inv (set_phase_of (set_nitem s (S x)) (upd (phase_of s) t (SendCk h x))).
+Proof.
+  intros I Hp Hv1 Hv2 Hx. get_inv I s. constructor; cbn; try assumption; auto_upd t.
+  - intros e t0 Hin. rewrite upd_other; [auto|]. intros ->. apply Hrk in Hin. congruence.
+  - intros e x0 Hin. apply ex_phase_keep; [auto|congruence].
+  - intros t0 h0 x0 H. upd_cases t; [injection H as <- <-; auto|eauto].
+  - intros x0 Hin. apply Hfresh in Hin. lia.
+  - intros t0 h0 x0 H. upd_cases t.
+    + injection H as <- <-. split; [lia|]. intros Hin. apply Hfresh in Hin. lia.
+    + destruct (Hck _ _ _ H). split; [lia|assumption].
+  - intros t1 t2 h1 h2 x0 H1 H2.
+    destruct (Nat.eq_dec t1 t) as [->|N1], (Nat.eq_dec t2 t) as [->|N2]; auto;
+      rewrite ?upd_same in H1; rewrite ?upd_same in H2;
+      rewrite ?upd_other in H1 by assumption; rewrite ?upd_other in H2 by assumption.
+    + injection H1 as <- <-. apply Hck in H2. lia.
+    + injection H2 as <- <-. apply Hck in H1. lia.
+    + eauto.
+  - intros e x0. rewrite Hinfl. split; intros [H1 H2]; (split; [exact H1|]).
+    + apply ex_phase_keep; [auto|congruence].
+    + eapply ex_phase_back; [eauto|discriminate].
+Qed.
+
+Lemma begin_recv_inv s t h :
+  Inv s -> phase_of s t = Idle ->
+  Inv (set_phase_of s (upd (phase_of s) t (RecvCk h))).
+Proof.
+  intros I Hp. get_inv I s. constructor; cbn; try assumption; auto_upd t.
+  - intros e t0 Hin. rewrite upd_other; [auto|]. intros ->. apply Hrk in Hin. congruence.
+  - intros e x0 Hin. apply ex_phase_keep; [auto|congruence].
+  - intros e x0. rewrite Hinfl. split; intros [H1 H2]; (split; [exact H1|]).
+    + apply ex_phase_keep; [auto|congruence].
+    + eapply ex_phase_back; [eauto|discriminate].
+Qed.
+
+(* a task leaves a call in which it was not waiting on an event (checkpoint phases) *)
+Lemma finish_ck_inv s t :
+  Inv s -> wait_ev (phase_of s t) = None ->
+  Inv (finish s t).
+Proof.
+  intros I Hp. get_inv I s. unfold finish. constructor; cbn; try assumption; auto_upd t.
+  - intros e t0 Hin. rewrite upd_other; [auto|]. intros ->. apply Hrk in Hin. rewrite Hin in Hp. discriminate.
+  - intros e x0 Hin. apply ex_phase_keep; [auto|]. intros H. rewrite H in Hp. discriminate.
+  - intros e x0. rewrite Hinfl. split; intros [H1 H2]; (split; [exact H1|]).
+    + apply ex_phase_keep; [auto|]. intros H. rewrite H in Hp. discriminate.
+    + eapply ex_phase_back; [eauto|discriminate].
+Qed.
+
+Lemma perm_snoc_mid {A} (a b c : list A) x :
+  Permutation a (b ++ c) -> Permutation (a ++ [x]) ((b ++ [x]) ++ c).
+Proof.
+  intros H. rewrite <- app_assoc. cbn.
+  eapply perm_trans; [apply Permutation_sym, Permutation_cons_append|].
+  eapply perm_trans; [apply perm_skip, H|]. apply Permutation_middle.
+Qed.
+
+Definition fresh_item (s : st) (x : item) : Prop :=
+  x < nitem s /\ ~ In x (entered s) /\ (forall t h, phase_of s t <> SendCk h x).
+
+Lemma has_pending_wait_false s t e :
+  wait_ev (phase_of s t) = Some e -> has_pending s t = false ->
+  mustc s t = false /\ fut s e <> FCancelled /\ scopec s t = false.
+Proof.
+  unfold has_pending, waiter. intros -> H.
+  apply orb_false_iff in H. destruct H as [H H3]. apply orb_false_iff in H. destruct H as [H1 H2].
+  refine (conj H1 (conj _ H3)). intros E. rewrite E in H2. discriminate.
+Qed.
+
+Lemma has_pending_pending_false s t e :
+  Inv s -> wait_ev (phase_of s t) = Some e -> fut s e = FPending -> has_pending s t = false.
+Proof.
+  intros I Hw Hf. destruct (I_quiet s I t e Hw Hf) as [H1 H2].
+  unfold has_pending, waiter. rewrite Hw, H1, H2, Hf. reflexivity.
+Qed.
+
+Lemma set_nitem_inv s n : Inv s -> nitem s <= n -> Inv (set_nitem s n).
+Proof.
+  intros I Hn. get_inv I s. constructor; cbn; try assumption.
+  - intros x Hin. apply Hfresh in Hin. lia.
+  - intros t h x H. destruct (Hck _ _ _ H). split; [lia|assumption].
+Qed.
+
+Lemma add_acked_inv s x : Inv s -> In x (handed s ++ buffer s) -> Inv (add_acked s x).
+Proof.
+  intros I Hn. get_inv I s. unfold add_acked. constructor; cbn; try assumption.
+  intros x0 Hin. apply in_app_or in Hin. destruct Hin as [Hin|[<-|[]]]; auto.
+Qed.
+
+(* send_nowait pops (and forgets) a prefix of receivers whose cancellation is pending *)
+Lemma drop_prefix_inv s pre rest :
+  Inv s -> receivers s = pre ++ rest -> (forall e t, In (e, t) pre -> has_pending s t = true) ->
+  Inv (set_receivers s rest).
+Proof.
+  intros I Hr Hp. get_inv I s.
+  assert (Hin : forall p, In p rest -> In p (receivers s)).
+  { intros p H. rewrite Hr. apply in_or_app. now right. }
+  assert (Hss : subseq rest (receivers s)) by (rewrite Hr; apply subseq_suffix).
+  constructor; cbn; try assumption.
+  - intros e t H. apply Hrk, Hin, H.
+  - eapply subseq_nodup; [apply subseq_map, Hss|exact Hrnd].
+  - intros t e H1 H2. pose proof (Hrpend t e H1 H2) as H. rewrite Hr in H.
+    apply in_app_or in H. destruct H as [H|H]; [|exact H].
+    apply Hp in H. rewrite (has_pending_pending_false s t e I) in H; [discriminate| |exact H2].
+    rewrite H1. reflexivity.
+  - intros e t H. eapply Hrslot, Hin, H.
+  - intros H. apply Hj1. rewrite Hr. intros E. apply app_eq_nil in E. tauto.
+  - eapply subseq_trans; [apply subseq_map, Hss|exact Hrenq].
+Qed.
+
+Lemma serve_head_inv s e t rest x :
+  Inv s -> receivers s = (e, t) :: rest -> has_pending s t = false -> fresh_item s x ->
+  Inv (hand_over s rest e x).
+Proof.
+  intros I Hr Hp (Hx1 & Hx2 & Hx3). get_inv I s.
+  assert (Hin : forall p, In p rest -> In p (receivers s)) by (intros p H; rewrite Hr; now right).
+  assert (Hhd : In (e, t) (receivers s)) by (rewrite Hr; now left).
+  assert (Hpt : phase_of s t = RecvWait e) by (apply Hrk, Hhd).
+  assert (Hw : wait_ev (phase_of s t) = Some e) by (rewrite Hpt; reflexivity).
+  destruct (has_pending_wait_false s t e Hw Hp) as (Hm & Hfc & Hsc).
+  assert (Hset : ev_set (fut s e) = FSet) by (destruct (fut s e); cbn; congruence).
+  assert (Hnk : ~ In e (map fst rest)).
+  { pose proof Hrnd as Hn. rewrite Hr in Hn. cbn in Hn. inversion Hn; assumption. }
+  assert (Hne : forall e0 t0, In (e0, t0) rest -> e0 <> e).
+  { intros e0 t0 H ->. apply Hnk. apply in_map_iff. exists (e, t0). auto. }
+  assert (Hbs : buffer s = [] /\ senders s = []) by (apply Hj1; rewrite Hr; discriminate).
+  destruct Hbs as [Hb Hs].
+  assert (Hsl : slot s e = None) by (eapply Hrslot, Hhd).
+  assert (Hnotin : ~ In e (map fst (inflight s))).
+  { intros H. apply in_map_iff in H. destruct H as ([e0 x0] & E & H). cbn in E. subst e0.
+    apply Hinfl in H. destruct H as [H _]. congruence. }
+  unfold hand_over. constructor; cbn; try assumption; auto_upd e.
+  - pose proof Hrnd as Hn. rewrite Hr in Hn. cbn in Hn. inversion Hn; assumption.
+  - intros t0 e0 H1 H2. upd_cases e; [congruence|].
+    pose proof (Hrpend t0 e0 H1 H2) as H. rewrite Hr in H. destruct H as [H|H]; [congruence|exact H].
+  - intros e0 t0 H. rewrite upd_other; [eapply Hrslot, Hin, H|eapply Hne, H].
+  - rewrite Hb, Hs. cbn. rewrite Hb, Hs in Hperm1. cbn in Hperm1. apply perm_snoc_mid. exact Hperm1.
+  - rewrite map_app. cbn. rewrite app_assoc. rewrite app_assoc.
+    apply perm_snoc_mid. rewrite <- app_assoc. exact Hperm2.
+  - rewrite Hb, Hs. cbn. rewrite app_nil_r. apply subseq_app_tail.
+    rewrite Hb, Hs in Hsub. cbn in Hsub. rewrite app_nil_r in Hsub. exact Hsub.
+  - apply NoDup_app_tail1; assumption.
+  - intros x0 H. apply in_app_or in H. destruct H as [H|[<-|[]]]; auto.
+  - intros t0 h x0 H. destruct (Hck _ _ _ H) as [H1 H2]. split; [exact H1|].
+    intros H3. apply in_app_or in H3. destruct H3 as [H3|[<-|[]]]; [contradiction|]. eapply Hx3, H.
+  - intros t0 e0 x0 H. destruct (Hsw _ _ _ H) as [H1|H1]; [left; exact H1|right].
+    rewrite !in_app_iff in *. tauto.
+  - intros x0 H. apply Hack in H. rewrite !in_app_iff in *. tauto.
+  - intros e0 x0. rewrite in_app_iff. cbn. destruct (Nat.eq_dec e0 e) as [->|Hn].
+    + rewrite upd_same. split.
+      * intros [H|[H|[]]].
+        -- exfalso. apply Hnotin. apply in_map_iff. exists (e, x0). auto.
+        -- injection H as <-. split; [reflexivity|eauto].
+      * intros [H _]. right. left. congruence.
+    + rewrite upd_other by assumption. rewrite Hinfl. split.
+      * intros [H|[H|[]]]; [exact H|congruence].
+      * intros H. left. exact H.
+  - rewrite map_app. cbn. apply NoDup_app_tail1; assumption.
+  - eapply subseq_trans; [|exact Hrenq]. rewrite Hr. cbn. apply ss_skip, subseq_refl.
+  - intros e0 x0 H. rewrite Hs in H. destruct H.
+Qed.
+
+Lemma xlt_xle n m : xlt n m = true -> xle (S n) m.
+Proof. destruct m; cbn; [|trivial]. intros H. apply Nat.ltb_lt in H. lia. Qed.
+
+Lemma buffer_item_inv s x :
+  Inv s -> receivers s = [] -> xlt (length (buffer s)) (maxb s) = true -> open_send s <> 0 -> fresh_item s x ->
+  Inv (buffer_item s x).
+Proof.
+  intros I Hr Hlt Hos (Hx1 & Hx2 & Hx3). get_inv I s.
+  assert (Hs : senders s = []).
+  { destruct (senders s) eqn:E; [reflexivity|]. rewrite Hj2 in Hlt; [discriminate|discriminate]. }
+  unfold buffer_item, finished. constructor; cbn; try assumption; try (intros; contradiction); try (now constructor).
+  - intros t e H1 H2. pose proof (Hrpend t e H1 H2) as H. now rewrite Hr in H.
+  - rewrite app_length. cbn. rewrite Nat.add_1_r. apply xlt_xle, Hlt.
+  - rewrite Hs in Hperm1 |- *. cbn [map app] in Hperm1 |- *.
+    replace (handed s ++ (buffer s ++ [x]) ++ withdrawn s) with (((handed s ++ buffer s) ++ [x]) ++ withdrawn s)
+      by (rewrite <- !app_assoc; reflexivity).
+    apply perm_snoc_mid. rewrite <- app_assoc. exact Hperm1.
+  - rewrite Hs in Hsub |- *. cbn [map] in Hsub |- *. rewrite !app_nil_r in *.
+    rewrite app_assoc. apply subseq_app_tail. exact Hsub.
+  - apply NoDup_app_tail1; assumption.
+  - intros x0 H. apply in_app_or in H. destruct H as [H|[<-|[]]]; auto.
+  - intros t0 h x0 H. destruct (Hck _ _ _ H) as [H1 H2]. split; [exact H1|].
+    intros H3. apply in_app_or in H3. destruct H3 as [H3|[<-|[]]]; [contradiction|]. eapply Hx3, H.
+  - intros t0 e0 x0 H. destruct (Hsw _ _ _ H) as [H1|H1]; [left; exact H1|right].
+    rewrite !in_app_iff in *. tauto.
+  - intros x0 H. apply Hack in H. rewrite !in_app_iff in *. tauto.
+  - apply subseq_nil_l.
+  - intros t e H1 H2 H3. destruct (Heos t e H1 H2 H3) as [H _]. contradiction.
+Qed.
+Ltac nev_contra s Hnev :=
+  exfalso;
+  match goal with
+  | H : phase_of s ?t0 = RecvWait (nev s) |- _ =>
+      let K := fresh in assert (K := Hnev t0 (nev s)); rewrite H in K; specialize (K eq_refl); lia
+  | H : phase_of s ?t0 = SendWait (nev s) _ |- _ =>
+      let K := fresh in assert (K := Hnev t0 (nev s)); rewrite H in K; specialize (K eq_refl); lia
+  | H : wait_ev (phase_of s ?t0) = Some (nev s) |- _ =>
+      let K := fresh in assert (K := Hnev t0 (nev s) H); lia
+  end.
+
+Ltac auto_upd2 s Hnev t :=
+  try (intros; upd_cases t; upd_cases (nev s); cbn in *; try discriminate; try congruence;
+       try (nev_contra s Hnev); eauto; fail).
+
+Lemma enq_sender_inv s t x :
+  Inv s -> phase_of s t = Idle -> mustc s t = false -> scopec s t = false ->
+  receivers s = [] -> xlt (length (buffer s)) (maxb s) = false -> open_send s <> 0 -> open_recv s <> 0 ->
+  fresh_item s x -> Inv (enq_sender s t x).
+Proof.
+  intros I Hp Hm Hsc Hr Hfull Hos Hor (Hx1 & Hx2 & Hx3). get_inv I s.
+  assert (Hk : forall e0 x0, In (e0, x0) (senders s) -> e0 < nev s).
+  { intros e0 x0 H. destruct (Hsk _ _ H) as [t0 H0]. apply (Hnev t0). rewrite H0. reflexivity. }
+  unfold enq_sender. constructor; unfold finished; cbn; try assumption; auto_upd2 s Hnev t.
+  - intros t0 e H. upd_cases t; cbn in H; [injection H as <-; lia|apply Hnev in H; lia].
+  - intros t1 t2 e H1 H2.
+    destruct (Nat.eq_dec t1 t) as [->|N1], (Nat.eq_dec t2 t) as [->|N2]; auto;
+      rewrite ?upd_same in H1; rewrite ?upd_same in H2;
+      rewrite ?upd_other in H1 by assumption; rewrite ?upd_other in H2 by assumption; cbn in H1, H2.
+    + injection H1 as <-. apply Hnev in H2. lia.
+    + injection H2 as <-. apply Hnev in H1. lia.
+    + eauto.
+  - intros e t0 H. rewrite Hr in H. destruct H.
+  - intros e x0 H. apply in_app_or in H. destruct H as [H|[H|[]]].
+    + apply ex_phase_keep; [auto|congruence].
+    + injection H as <- <-. exists t. apply upd_same.
+  - rewrite map_app. cbn. apply NoDup_app_tail1; [assumption|].
+    intros H. apply in_map_iff in H. destruct H as ([e0 x0] & E & H). cbn in E. subst e0.
+    apply Hk in H. lia.
+  - intros t0 e x0 H1 H2. apply in_or_app. upd_cases t.
+    + injection H1 as <- <-. right. now left.
+    + left. upd_cases (nev s); [nev_contra s Hnev|eauto].
+  - rewrite map_app. cbn. rewrite !app_assoc. apply perm_snoc_mid. rewrite <- !app_assoc. exact Hperm1.
+  - rewrite map_app. cbn. rewrite !app_assoc. apply subseq_app_tail. rewrite <- !app_assoc. exact Hsub.
+  - apply NoDup_app_tail1; assumption.
+  - intros x0 H. apply in_app_or in H. destruct H as [H|[<-|[]]]; auto.
+  - intros t0 h x0 H. upd_cases t; [discriminate|].
+    destruct (Hck _ _ _ H) as [H1 H2]. split; [exact H1|].
+    intros H3. apply in_app_or in H3. destruct H3 as [H3|[<-|[]]]; [contradiction|]. eapply Hx3, H.
+  - intros t0 e x0 H. upd_cases t.
+    + injection H as <- <-. left. apply in_or_app. right. now left.
+    + destruct (Hsw _ _ _ H) as [H1|H1]; [left; apply in_or_app; now left|now right].
+  - intros e x0. rewrite Hinfl. split; intros [H1 H2]; (split; [exact H1|]).
+    + apply ex_phase_keep; [auto|congruence].
+    + eapply ex_phase_back; [eauto|discriminate].
+  - rewrite map_app. cbn. apply subseq_app_tail. exact Hsenq.
+  - intros t0 e H1 H2 H3. upd_cases t; [discriminate|]. upd_cases (nev s); [discriminate|].
+    destruct (Heos _ _ H1 H2 H3) as [H _]. contradiction.
+  - intros e x0 H H2. apply in_app_or in H. destruct H as [H|[H|[]]].
+    + rewrite upd_other in H2 by (apply Hk in H; lia). eauto.
+    + injection H as <- <-. rewrite upd_same in H2. discriminate.
+Qed.
+
+Lemma pop_only_inv s x b :
+  Inv s -> senders s = [] -> buffer s = x :: b ->
+  Inv (set_returned (set_handed (set_buffer s b) (handed s ++ [x])) (returned s ++ [x])).
+Proof.
+  intros I Hs Hb. get_inv I s.
+  assert (Hr : receivers s = []).
+  { destruct (receivers s) eqn:E; [reflexivity|]. destruct Hj1 as [H _]; [discriminate|congruence]. }
+  assert (Hmem : forall x0, In x0 (handed s ++ buffer s) -> In x0 ((handed s ++ [x]) ++ b)).
+  { intros x0. rewrite Hb, !in_app_iff. cbn. tauto. }
+  constructor; unfold finished; cbn; try assumption.
+  - intros H. congruence.
+  - intros H. congruence.
+  - rewrite Hb in Hbound. destruct (maxb s); cbn in *; [lia|trivial].
+  - rewrite Hb in Hperm1. rewrite <- app_assoc. exact Hperm1.
+  - apply perm_snoc_mid. exact Hperm2.
+  - rewrite Hb in Hsub. rewrite <- app_assoc. exact Hsub.
+  - intros t e x0 H. destruct (Hsw _ _ _ H) as [H1|H1]; [now left|right; auto].
+  - intros x0 H. auto.
+  - intros t e H1 H2 H3. destruct (Heos _ _ H1 H2 H3) as (_ & H & _). congruence.
+Qed.
+
+Lemma move_pop_inv s e y r x b :
+  Inv s -> senders s = (e, y) :: r -> buffer s ++ [y] = x :: b ->
+  Inv (set_returned (set_handed (set_buffer
+        (set_fut (set_buffer (set_senders s r) (buffer s ++ [y])) (upd (fut s) e (ev_set (fut s e)))) b)
+        (handed s ++ [x])) (returned s ++ [x])).
+Proof.
+  intros I Hs Hb. get_inv I s.
+  assert (Hr : receivers s = []).
+  { destruct (receivers s) eqn:E; [reflexivity|]. destruct Hj1 as [_ H]; [discriminate|congruence]. }
+  assert (Hin : forall p, In p r -> In p (senders s)) by (intros p H; rewrite Hs; now right).
+  assert (Hnk : ~ In e (map fst r)).
+  { pose proof Hsnd as Hn. rewrite Hs in Hn. cbn in Hn. inversion Hn; assumption. }
+  assert (Hne : forall e0 x0, In (e0, x0) r -> e0 <> e).
+  { intros e0 x0 H ->. apply Hnk. apply in_map_iff. exists (e, x0). auto. }
+  assert (Hlen : length b = length (buffer s)).
+  { assert (H : length (buffer s ++ [y]) = length (x :: b)) by (rewrite Hb; reflexivity).
+    rewrite app_length in H. cbn in H. lia. }
+  assert (Hmem : forall x0, In x0 (handed s ++ buffer s) \/ x0 = y -> In x0 ((handed s ++ [x]) ++ b)).
+  { intros x0 H. rewrite <- app_assoc. cbn [app]. rewrite <- Hb. rewrite !in_app_iff in *. cbn.
+    destruct H as [H| ->]; tauto. }
+  assert (Hnp : ev_set (fut s e) <> FPending) by apply ev_set_not_pending.
+  constructor; unfold finished; cbn; try assumption; auto_upd e.
+  - pose proof Hsnd as Hn. rewrite Hs in Hn. cbn in Hn. inversion Hn; assumption.
+  - intros t e0 x0 H1 H2. upd_cases e; [congruence|].
+    pose proof (Hspend _ _ _ H1 H2) as H. rewrite Hs in H. destruct H as [H|H]; [congruence|exact H].
+  - intros _. rewrite Hlen. apply Hj2. rewrite Hs. discriminate.
+  - rewrite Hs in Hperm1. cbn in Hperm1. rewrite <- app_assoc. cbn [app]. rewrite app_comm_cons, <- Hb.
+    rewrite <- !app_assoc. cbn [app]. exact Hperm1.
+  - apply perm_snoc_mid. exact Hperm2.
+  - rewrite Hs in Hsub. cbn in Hsub. rewrite <- app_assoc. cbn [app]. rewrite app_comm_cons, <- Hb.
+    rewrite <- !app_assoc. cbn [app]. exact Hsub.
+  - intros t e0 x0 H. destruct (Hsw _ _ _ H) as [H1|H1].
+    + rewrite Hs in H1. destruct H1 as [H1|H1]; [injection H1 as <- <-; right; apply Hmem; now right|now left].
+    + right. apply Hmem. now left.
+  - intros t e0 x0 H1 H2. upd_cases e; [|eauto]. rewrite (Hfilled _ _ _ H1 H2). reflexivity.
+  - eapply subseq_trans; [|exact Hsenq]. rewrite Hs. cbn. apply ss_skip, subseq_refl.
+  - intros t e0 H1 H2 H3. exfalso. upd_cases e.
+    + destruct (Hsk e y) as [t' Ht']; [rewrite Hs; now left|].
+      assert (t = t') by (eapply Hinj; [rewrite H1|rewrite Ht']; reflexivity). subst. congruence.
+    + destruct (Heos _ _ H1 H2 H3) as (_ & _ & H). congruence.
+  - intros e0 x0 H H2. rewrite upd_other in H2 by (eapply Hne, H). eauto.
+Qed.
+
+Lemma enq_receiver_inv s t :
+  Inv s -> phase_of s t = Idle -> mustc s t = false -> scopec s t = false ->
+  buffer s = [] -> senders s = [] -> open_send s <> 0 -> Inv (enq_receiver s t).
+Proof.
+  intros I Hp Hm Hsc Hb Hs Hos. get_inv I s.
+  assert (Hk : forall e0 t0, In (e0, t0) (receivers s) -> e0 < nev s).
+  { intros e0 t0 H. apply Hrk in H. apply (Hnev t0). rewrite H. reflexivity. }
+  unfold enq_receiver. constructor; unfold finished; cbn; try assumption; auto_upd2 s Hnev t.
+  - intros t0 e H. upd_cases t; cbn in H; [injection H as <-; lia|apply Hnev in H; lia].
+  - intros t1 t2 e H1 H2.
+    destruct (Nat.eq_dec t1 t) as [->|N1], (Nat.eq_dec t2 t) as [->|N2]; auto;
+      rewrite ?upd_same in H1; rewrite ?upd_same in H2;
+      rewrite ?upd_other in H1 by assumption; rewrite ?upd_other in H2 by assumption; cbn in H1, H2.
+    + injection H1 as <-. apply Hnev in H2. lia.
+    + injection H2 as <-. apply Hnev in H1. lia.
+    + eauto.
+  - intros e t0 H. apply in_app_or in H. destruct H as [H|[H|[]]].
+    + rewrite upd_other; [auto|]. intros ->. apply Hrk in H. congruence.
+    + injection H as <- <-. apply upd_same.
+  - intros e x0 H. rewrite Hs in H. destruct H.
+  - rewrite map_app. cbn. apply NoDup_app_tail1; [assumption|].
+    intros H. apply in_map_iff in H. destruct H as ([e0 t0] & E & H). cbn in E. subst e0.
+    apply Hk in H. lia.
+  - intros t0 e H1 H2. apply in_or_app. upd_cases t.
+    + injection H1 as <-. right. now left.
+    + left. upd_cases (nev s); [nev_contra s Hnev|eauto].
+  - intros e t0 H. apply in_app_or in H. destruct H as [H|[H|[]]].
+    + rewrite upd_other by (apply Hk in H; lia). eauto.
+    + injection H as <- <-. apply upd_same.
+  - intros e x0. rewrite Hinfl. destruct (Nat.eq_dec e (nev s)) as [->|Hn].
+    + rewrite upd_same. split; [|intros [H _]; discriminate].
+      intros [_ [t0 H]]. nev_contra s Hnev.
+    + rewrite upd_other by assumption. split; intros [H1 H2]; (split; [exact H1|]).
+      * apply ex_phase_keep; [auto|congruence].
+      * eapply ex_phase_back; [eauto|]. congruence.
+  - rewrite map_app. cbn. apply subseq_app_tail. exact Hrenq.
+  - intros t0 e H1 H2 H3. upd_cases t.
+    + injection H1 as <-. rewrite upd_same in H2. discriminate.
+    + upd_cases (nev s); try discriminate. eapply Heos; eassumption.
+Qed.
+Lemma finish_sw_absent_inv s t e x :
+  Inv s -> phase_of s t = SendWait e x -> fut s e <> FPending -> has_key e (senders s) = false ->
+  Inv (finish s t).
+Proof.
+  intros I Hp Hf Hk. get_inv I s. apply has_key_false in Hk.
+  assert (Hne : forall e0 x0, In (e0, x0) (senders s) -> e0 <> e).
+  { intros e0 x0 H ->. apply Hk. apply in_map_iff. exists (e, x0). auto. }
+  unfold finish. constructor; unfold finished; cbn; try assumption; auto_upd t.
+  - intros e0 t0 H. rewrite upd_other; [auto|]. intros ->. apply Hrk in H. congruence.
+  - intros e0 x0 H. apply ex_phase_keep; [auto|]. rewrite Hp. intros E. injection E as <- _. eapply Hne; eauto.
+  - intros e0 x0. rewrite Hinfl. split; intros [H1 H2]; (split; [exact H1|]).
+    + apply ex_phase_keep; [auto|congruence].
+    + eapply ex_phase_back; [eauto|discriminate].
+  - intros t0 e0 H1 H2 H3. upd_cases t; [discriminate|]. eapply Heos; eassumption.
+Qed.
+
+Lemma finish_sw_present_inv s t e x :
+  Inv s -> phase_of s t = SendWait e x -> fut s e <> FPending -> has_key e (senders s) = true ->
+  Inv (finish (set_withdrawn (set_senders s (del_key e (senders s))) (withdrawn s ++ [x])) t).
+Proof.
+  intros I Hp Hf Hk. get_inv I s. apply has_key_in in Hk.
+  assert (Hin : In (e, x) (senders s)).
+  { apply in_map_iff in Hk. destruct Hk as ([e0 x0] & E & H). cbn in E. subst e0.
+    destruct (Hsk _ _ H) as [t' Ht']. assert (t' = t) by (eapply Hinj; [rewrite Ht'|rewrite Hp]; reflexivity).
+    subst. rewrite Hp in Ht'. injection Ht' as <-. exact H. }
+  assert (Hsub' : subseq (del_key e (senders s)) (senders s)) by apply del_key_subseq.
+  unfold finish. constructor; unfold finished; cbn; try assumption; auto_upd t.
+  - intros e0 t0 H. rewrite upd_other; [auto|]. intros ->. apply Hrk in H. congruence.
+  - intros e0 x0 H. apply ex_phase_keep; [apply Hsk; eapply del_key_in, H|].
+    rewrite Hp. intros E. injection E as <- _.
+    eapply (del_key_gone e (senders s) Hsnd). apply in_map_iff. exists (e, x0). split; [reflexivity|exact H].
+  - apply del_key_nodup, Hsnd.
+  - intros t0 e0 x0 H1 H2. upd_cases t; [discriminate|]. apply del_key_other; [eauto|].
+    intros ->. assert (t0 = t) by (eapply Hinj; [rewrite H1|rewrite Hp]; reflexivity). contradiction.
+  - intros H. destruct (Hj1 H) as [H1 H2]. rewrite H2 in Hin. destruct Hin.
+  - intros H. apply Hj2. intros E. rewrite E in H. cbn in H. congruence.
+  - eapply perm_trans; [exact Hperm1|]. apply Permutation_app_head, Permutation_app_head.
+    eapply perm_trans; [apply Permutation_app_tail, (del_key_perm e x (senders s) Hsnd Hin)|].
+    cbn. rewrite app_assoc. apply Permutation_cons_append.
+  - eapply subseq_trans; [|exact Hsub]. apply subseq_app; [apply subseq_refl|].
+    apply subseq_app; [apply subseq_refl|]. apply subseq_map, Hsub'.
+  - intros t0 e0 x0 H. upd_cases t; [discriminate|]. destruct (Hsw _ _ _ H) as [H1|H1]; [left|now right].
+    apply del_key_other; [exact H1|].
+    intros ->. assert (t0 = t) by (eapply Hinj; [rewrite H|rewrite Hp]; reflexivity). contradiction.
+  - intros e0 x0. rewrite Hinfl. split; intros [H1 H2]; (split; [exact H1|]).
+    + apply ex_phase_keep; [auto|congruence].
+    + eapply ex_phase_back; [eauto|discriminate].
+  - eapply subseq_trans; [apply subseq_map, Hsub'|exact Hsenq].
+  - intros t0 e0 H1 H2 H3. upd_cases t; [discriminate|]. destruct (Heos _ _ H1 H2 H3) as (_ & _ & H).
+    rewrite H in Hin. destruct Hin.
+  - intros e0 x0 H. apply del_key_in in H. eauto.
+Qed.
+
+Lemma pop_receiver_inv s t e :
+  Inv s -> phase_of s t = RecvWait e -> fut s e <> FPending -> Inv (pop_receiver s e).
+Proof.
+  intros I Hp Hf. get_inv I s.
+  assert (Hsub' : subseq (del_key e (receivers s)) (receivers s)) by apply del_key_subseq.
+  unfold pop_receiver. constructor; unfold finished; cbn; try assumption.
+  - intros e0 t0 H. apply Hrk. eapply del_key_in, H.
+  - apply del_key_nodup, Hrnd.
+  - intros t0 e0 H1 H2. apply del_key_other; [eauto|]. intros ->. contradiction.
+  - intros e0 t0 H. eapply Hrslot. eapply del_key_in, H.
+  - intros H. apply Hj1. intros E. rewrite E in H. cbn in H. congruence.
+  - eapply subseq_trans; [apply subseq_map, Hsub'|exact Hrenq].
+Qed.
+
+Lemma finish_rw_inv s t e l' r' lo' :
+  Inv s -> phase_of s t = RecvWait e -> fut s e <> FPending -> ~ In e (map fst (receivers s)) ->
+  (match slot s e with
+   | Some x => (r' = returned s ++ [x] /\ lo' = lost s) \/ (r' = returned s /\ lo' = lost s ++ [x])
+   | None => r' = returned s /\ lo' = lost s
+   end) ->
+  l' = del_key e (inflight s) ->
+  Inv (finish (set_lost (set_returned (set_inflight s l') r') lo') t).
+Proof.
+  intros I Hp Hf Hk Hm ->. get_inv I s.
+  unfold finish. constructor; unfold finished; cbn; try assumption; auto_upd t.
+  - intros e0 t0 H. rewrite upd_other; [auto|]. intros ->.
+    pose proof (Hrk _ _ H) as H1. rewrite Hp in H1. injection H1 as <-.
+    apply Hk. apply in_map_iff. exists (e, t). auto.
+  - intros e0 x0 H. apply ex_phase_keep; [auto|congruence].
+  - destruct (slot s e) as [x|] eqn:Es.
+    + assert (Hin : In (e, x) (inflight s)) by (apply Hinfl; split; [exact Es|eauto]).
+      pose proof (del_key_perm e x (inflight s) Hinflnd Hin) as Hd.
+      eapply perm_trans; [exact Hperm2|]. destruct Hm as [[-> ->]|[-> ->]].
+      * rewrite <- app_assoc. apply Permutation_app_head. cbn. apply (Permutation_app_tail (lost s)) in Hd. exact Hd.
+      * apply Permutation_app_head.
+        eapply perm_trans; [apply Permutation_app_tail, Hd|]. cbn. rewrite app_assoc. apply Permutation_cons_append.
+    + destruct Hm as [-> ->]. rewrite del_key_absent; [exact Hperm2|].
+      intros H. apply in_map_iff in H. destruct H as ([e0 x0] & E & H). cbn in E. subst e0.
+      apply Hinfl in H. destruct H as [H _]. congruence.
+  - intros e0 x0. destruct (Nat.eq_dec e0 e) as [->|Hn].
+    + split.
+      * intros H. exfalso. eapply (del_key_gone e (inflight s) Hinflnd).
+        apply in_map_iff. exists (e, x0). split; [reflexivity|exact H].
+      * intros [_ [t0 H]]. exfalso. upd_cases t; [discriminate|].
+        assert (t0 = t) by (eapply Hinj; [rewrite H|rewrite Hp]; reflexivity). contradiction.
+    + split.
+      * intros H. apply del_key_in in H. apply Hinfl in H. destruct H as [H1 H2]. split; [exact H1|].
+        apply ex_phase_keep; [exact H2|congruence].
+      * intros [H1 H2]. apply del_key_other; [|exact Hn]. apply Hinfl. split; [exact H1|].
+        eapply ex_phase_back; [eauto|discriminate].
+  - apply del_key_nodup, Hinflnd.
+  - intros t0 e0 H1 H2 H3. upd_cases t; [discriminate|]. eapply Heos; eassumption.
+Qed.
+Lemma set_keys_set_inv f ks e : set_keys f ks e = FSet -> f e = FSet \/ In e ks.
+Proof.
+  unfold set_keys. destruct (mem e ks) eqn:E; [|now left]. intros _. right. now apply mem_in.
+Qed.
+
+Lemma set_keys_keep_set f ks e : f e = FSet -> set_keys f ks e = FSet.
+Proof. intros H. unfold set_keys. destruct (mem e ks); [rewrite H; reflexivity|exact H]. Qed.
+
+Lemma in_keys {A} (e : eid) (v : A) (l : list (eid * A)) : In (e, v) l -> In e (map fst l).
+Proof. intros H. apply in_map_iff. exists (e, v). auto. Qed.
+
+Lemma count_open_pos sd hs hc n h : h < n -> hs h = sd -> hc h = false -> count_open sd hs hc n <> 0.
+Proof.
+  intros H1 H2 H3 H. pose proof (count_open_zero sd hs hc n H h H1 H2). congruence.
+Qed.
+
+Lemma flags_fut_inv s f' m' sc' :
+  Inv s ->
+  (f' = fut s \/ exists t e, wait_ev (phase_of s t) = Some e /\ fut s e = FPending /\ f' = upd (fut s) e FCancelled) ->
+  (forall t e, wait_ev (phase_of s t) = Some e -> f' e = FPending -> m' t = false /\ sc' t = false) ->
+  Inv (set_scopec (set_mustc (set_fut s f') m') sc').
+Proof.
+  intros I Hf Hq. get_inv I s. destruct Hf as [->|(t & e & Hw & Hp & ->)].
+  - constructor; unfold finished; cbn; try assumption.
+  - constructor; unfold finished; cbn; try assumption; auto_upd e.
+    + intros t0 e0 x0 H1 H2. upd_cases e; [|eauto]. rewrite (Hfilled _ _ _ H1 H2) in Hp. discriminate.
+    + intros t0 e0 H1 H2 H3. upd_cases e; [discriminate|]. eapply Heos; eassumption.
+Qed.
+
+Lemma do_clone_inv s h : Inv s -> h < nh s -> hclosed s h = false -> Inv (do_clone s h).
+Proof.
+  intros I Hh Hc. get_inv I s.
+  assert (Hext : forall sd sd', count_open sd (upd (hside s) (nh s) sd') (upd (hclosed s) (nh s) false) (nh s)
+                                = count_open sd (hside s) (hclosed s) (nh s)).
+  { intros sd sd'. apply count_open_ext. intros h0 Hh0. split; apply upd_other; lia. }
+  unfold do_clone. destruct (hside s h) eqn:Hsd.
+  - assert (Hpos : open_send s <> 0) by (rewrite Hcs; eapply count_open_pos; eauto).
+    constructor; unfold finished; cbn; try assumption.
+    + rewrite Hext, !upd_same. cbn. lia.
+    + rewrite Hext, !upd_same. cbn. lia.
+    + intros t h0 x H. destruct (Hckh _ _ _ H) as [H1 H2]. split; [lia|]. rewrite upd_other by lia. exact H2.
+    + intros t e H1 H2 H3. destruct (Heos _ _ H1 H2 H3) as [H _]. contradiction.
+    + intros H. discriminate.
+  - assert (Hpos : open_recv s <> 0) by (rewrite Hcr; eapply count_open_pos; eauto).
+    constructor; unfold finished; cbn; try assumption.
+    + rewrite Hext, !upd_same. cbn. lia.
+    + rewrite Hext, !upd_same. cbn. lia.
+    + intros t h0 x H. destruct (Hckh _ _ _ H) as [H1 H2]. split; [lia|]. rewrite upd_other by lia. exact H2.
+    + intros e x H1 H2. exfalso. apply Hpos. eauto.
+    + intros H. discriminate.
+Qed.
+
+Lemma close_send_last_inv s h :
+  Inv s -> h < nh s -> hclosed s h = false -> hside s h = SSend -> pred (open_send s) = 0 ->
+  Inv (set_fut (set_receivers (set_open_send (set_hclosed s (upd (hclosed s) h true)) 0) [])
+               (set_keys (fut s) (map fst (receivers s)))).
+Proof.
+  intros I Hh Hc Hsd Hn. get_inv I s.
+  assert (Hpos : open_send s <> 0) by (rewrite Hcs; eapply count_open_pos; eauto).
+  assert (Hrp : forall t e, phase_of s t = RecvWait e -> set_keys (fut s) (map fst (receivers s)) e <> FPending).
+  { intros t e H1 H2. apply set_keys_not_pending_inv in H2. destruct H2 as [H2 H3].
+    apply H3. eapply in_keys. eapply Hrpend; eauto. }
+  constructor; unfold finished; cbn; try assumption; try (intros; contradiction); try (now constructor).
+  - intros t e x H1 H2. apply set_keys_not_pending_inv in H2. destruct H2 as [H2 _]. eauto.
+  - intros t e H1 H2. apply set_keys_not_pending_inv in H2. destruct H2 as [H2 _]. eauto.
+  - pose proof (count_open_close SSend (hside s) (hclosed s) (nh s) h Hh Hc Hsd). lia.
+  - rewrite count_open_close_other; [exact Hcr|]. rewrite Hsd. discriminate.
+  - intros t e x H1 H2. apply set_keys_keep_set. eauto.
+  - apply subseq_nil_l.
+  - intros t e H1 H2 H3. split; [reflexivity|]. apply set_keys_set_inv in H2. destruct H2 as [H2|H2].
+    + destruct (Heos _ _ H1 H2 H3) as [H _]. contradiction.
+    + apply Hj1. intros E. rewrite E in H2. destruct H2.
+  - intros e x H1 H2. apply set_keys_set_inv in H2. destruct H2 as [H2|H2]; [eauto|].
+    destruct Hj1 as [_ H]; [intros E; rewrite E in H2; destruct H2|]. rewrite H in H1. destruct H1.
+  - intros _ t e H. eapply Hrp; eauto.
+  - intros Ho t e x H1 H2. apply set_keys_not_pending_inv in H2. destruct H2 as [H2 _]. eapply Hws; eauto.
+Qed.
+
+Lemma close_recv_last_inv s h :
+  Inv s -> h < nh s -> hclosed s h = false -> hside s h = SRecv -> pred (open_recv s) = 0 ->
+  Inv (set_fut (set_open_recv (set_hclosed s (upd (hclosed s) h true)) 0)
+               (set_keys (fut s) (map fst (senders s)))).
+Proof.
+  intros I Hh Hc Hsd Hn. get_inv I s.
+  assert (Hpos : open_recv s <> 0) by (rewrite Hcr; eapply count_open_pos; eauto).
+  constructor; unfold finished; cbn; try assumption.
+  - intros t e H1 H2. apply set_keys_not_pending_inv in H2. destruct H2 as [H2 _]. eauto.
+  - intros t e x H1 H2. apply set_keys_not_pending_inv in H2. destruct H2 as [H2 _]. eauto.
+  - intros t e H1 H2. apply set_keys_not_pending_inv in H2. destruct H2 as [H2 _]. eauto.
+  - rewrite count_open_close_other; [exact Hcs|]. rewrite Hsd. discriminate.
+  - pose proof (count_open_close SRecv (hside s) (hclosed s) (nh s) h Hh Hc Hsd). lia.
+  - intros t e x H1 H2. apply set_keys_keep_set. eauto.
+  - intros t e H1 H2 H3. apply set_keys_set_inv in H2. destruct H2 as [H2|H2]; [eapply Heos; eassumption|].
+    exfalso. apply in_map_iff in H2. destruct H2 as ([e0 x0] & E & H2). cbn in E. subst e0.
+    destruct (Hsk _ _ H2) as [t' Ht'].
+    assert (t' = t) by (eapply Hinj; [rewrite Ht'|rewrite H1]; reflexivity). subst. congruence.
+  - reflexivity.
+  - intros Ho t e H1 H2. apply set_keys_not_pending_inv in H2. destruct H2 as [H2 _]. eapply Hwr; eauto.
+  - intros _ t e x H1 H2. apply set_keys_not_pending_inv in H2. destruct H2 as [H2 H3].
+    apply H3. eapply in_keys. eapply Hspend; eauto.
+Qed.
+
+Lemma close_send_notlast_inv s h :
+  Inv s -> h < nh s -> hclosed s h = false -> hside s h = SSend -> pred (open_send s) <> 0 ->
+  Inv (set_open_send (set_hclosed s (upd (hclosed s) h true)) (pred (open_send s))).
+Proof.
+  intros I Hh Hc Hsd Hn. get_inv I s.
+  constructor; unfold finished; cbn; try assumption.
+  - pose proof (count_open_close SSend (hside s) (hclosed s) (nh s) h Hh Hc Hsd). lia.
+  - rewrite count_open_close_other; [exact Hcr|]. rewrite Hsd. discriminate.
+  - intros t e H1 H2 H3. destruct (Heos _ _ H1 H2 H3) as (H & Hb & Hs). rewrite H. auto.
+  - intros H. contradiction.
+Qed.
+
+Lemma close_recv_notlast_inv s h :
+  Inv s -> h < nh s -> hclosed s h = false -> hside s h = SRecv -> pred (open_recv s) <> 0 ->
+  Inv (set_open_recv (set_hclosed s (upd (hclosed s) h true)) (pred (open_recv s))).
+Proof.
+  intros I Hh Hc Hsd Hn. get_inv I s.
+  constructor; unfold finished; cbn; try assumption.
+  - rewrite count_open_close_other; [exact Hcs|]. rewrite Hsd. discriminate.
+  - pose proof (count_open_close SRecv (hside s) (hclosed s) (nh s) h Hh Hc Hsd). lia.
+  - intros e x H1 H2. rewrite (Hbrk _ _ H1 H2). reflexivity.
+  - intros H. contradiction.
+Qed.
+
+Lemma do_close_inv s h : Inv s -> h < nh s -> hclosed s h = false -> Inv (do_close s h).
+Proof.
+  intros I Hh Hc. unfold do_close. destruct (hside s h) eqn:Hsd.
+  - destruct (Nat.eqb_spec (pred (open_send s)) 0) as [E|E].
+    + rewrite E. apply close_send_last_inv; assumption.
+    + apply close_send_notlast_inv; assumption.
+  - destruct (Nat.eqb_spec (pred (open_recv s)) 0) as [E|E].
+    + rewrite E. apply close_recv_last_inv; assumption.
+    + apply close_recv_notlast_inv; assumption.
+Qed.
+Lemma task_cancel_inv s t : Inv s -> Inv (task_cancel s t).
+Proof.
+  intros I. unfold task_cancel, waiter. destruct (wait_ev (phase_of s t)) as [e|] eqn:Ew.
+  - destruct (fut s e) eqn:Ef.
+    + assert (K : Inv (set_scopec (set_mustc (set_fut s (upd (fut s) e FCancelled)) (mustc s)) (scopec s))).
+      { apply flags_fut_inv; [exact I|right; exists t, e; auto|].
+        intros t0 e0 H1 H2. apply (I_quiet s I t0 e0 H1).
+        destruct (Nat.eq_dec e0 e) as [->|Hn]; [rewrite upd_same in H2; discriminate|].
+        now rewrite upd_other in H2 by assumption. }
+      destruct s; exact K.
+    + assert (K : Inv (set_scopec (set_mustc (set_fut s (fut s)) (upd (mustc s) t true)) (scopec s))).
+      { apply flags_fut_inv; [exact I|now left|].
+        intros t0 e0 H1 H2. destruct (I_quiet s I t0 e0 H1 H2) as [H3 H4]. split; [|exact H4].
+        rewrite upd_other; [exact H3|]. intros ->. rewrite Ew in H1. injection H1 as <-. congruence. }
+      destruct s; exact K.
+    + assert (K : Inv (set_scopec (set_mustc (set_fut s (fut s)) (upd (mustc s) t true)) (scopec s))).
+      { apply flags_fut_inv; [exact I|now left|].
+        intros t0 e0 H1 H2. destruct (I_quiet s I t0 e0 H1 H2) as [H3 H4]. split; [|exact H4].
+        rewrite upd_other; [exact H3|]. intros ->. rewrite Ew in H1. injection H1 as <-. congruence. }
+      destruct s; exact K.
+  - assert (K : Inv (set_scopec (set_mustc (set_fut s (fut s)) (upd (mustc s) t true)) (scopec s))).
+    { apply flags_fut_inv; [exact I|now left|].
+      intros t0 e0 H1 H2. destruct (I_quiet s I t0 e0 H1 H2) as [H3 H4]. split; [|exact H4].
+      rewrite upd_other; [exact H3|]. intros ->. rewrite Ew in H1. discriminate. }
+    destruct s; exact K.
+Qed.
+
+Lemma scope_cancel_inv s t : Inv s -> Inv (scope_cancel s t).
+Proof.
+  intros I. unfold scope_cancel, task_cancel, waiter; cbn [phase_of fut mustc set_scopec].
+  assert (Hsc : forall m', (forall t0 e0, wait_ev (phase_of s t0) = Some e0 -> fut s e0 = FPending -> m' t0 = false) ->
+                (forall e0, wait_ev (phase_of s t) = Some e0 -> fut s e0 <> FPending) ->
+                Inv (set_scopec (set_mustc (set_fut s (fut s)) m') (upd (scopec s) t true))).
+  { intros m' Hm Hnp. apply flags_fut_inv; [exact I|now left|].
+    intros t0 e0 H1 H2. split; [eauto|]. destruct (I_quiet s I t0 e0 H1 H2) as [H3 H4].
+    rewrite upd_other; [exact H4|]. intros ->. eapply Hnp; eauto. }
+  assert (Hq0 : forall t0 e0, wait_ev (phase_of s t0) = Some e0 -> fut s e0 = FPending -> mustc s t0 = false).
+  { intros t0 e0 H1 H2. apply (I_quiet s I t0 e0 H1 H2). }
+  destruct (mustc s t) eqn:Em.
+  - assert (K : Inv (set_scopec (set_mustc (set_fut s (fut s)) (mustc s)) (upd (scopec s) t true))).
+    { apply Hsc; [exact Hq0|]. intros e0 H1 H2. rewrite (Hq0 t e0 H1 H2) in Em. discriminate. }
+    destruct s; exact K.
+  - destruct (wait_ev (phase_of s t)) as [e|] eqn:Ew.
+    + destruct (fut s e) eqn:Ef.
+      * assert (K : Inv (set_scopec (set_mustc (set_fut s (upd (fut s) e FCancelled)) (mustc s)) (upd (scopec s) t true))).
+        { apply flags_fut_inv; [exact I|right; exists t, e; auto|].
+          intros t0 e0 H1 H2.
+          destruct (Nat.eq_dec e0 e) as [->|Hn]; [rewrite upd_same in H2; discriminate|].
+          rewrite upd_other in H2 by assumption. destruct (I_quiet s I t0 e0 H1 H2) as [H3 H4].
+          split; [exact H3|]. rewrite upd_other; [exact H4|]. intros ->. congruence. }
+        destruct s; exact K.
+      * assert (K : Inv (set_scopec (set_mustc (set_fut s (fut s)) (mustc s)) (upd (scopec s) t true))).
+        { apply Hsc; [exact Hq0|]. intros e0 H1. injection H1 as <-. congruence. }
+        destruct s; exact K.
+      * assert (K : Inv (set_scopec (set_mustc (set_fut s (fut s)) (mustc s)) (upd (scopec s) t true))).
+        { apply Hsc; [exact Hq0|]. intros e0 H1. injection H1 as <-. congruence. }
+        destruct s; exact K.
+    + assert (K : Inv (set_scopec (set_mustc (set_fut s (fut s)) (upd (mustc s) t true)) (upd (scopec s) t true))).
+      { apply Hsc; [|intros e0 H1; discriminate].
+        intros t0 e0 H1 H2. rewrite upd_other; [eauto|]. intros ->. congruence. }
+      destruct s; exact K.
+Qed.
+
+(* ---------- send_nowait / receive_nowait as a whole ---------- *)
+Lemma has_pending_set_receivers s l t : has_pending (set_receivers s l) t = has_pending s t.
+Proof. reflexivity. Qed.
+
+Lemma send_nowait_inv s h x :
+  Inv s -> h < nh s -> hside s h = SSend -> fresh_item s x ->
+  let s1 := fst (send_nowait s h x) in
+  Inv s1 /\
+  match snd (send_nowait s h x) with
+  | RDone => In x (handed s1 ++ buffer s1)
+  | RWouldBlock =>
+      receivers s1 = [] /\ xlt (length (buffer s1)) (maxb s1) = false /\ open_send s1 <> 0 /\ open_recv s1 <> 0 /\
+      fresh_item s1 x /\ phase_of s1 = phase_of s /\ mustc s1 = mustc s /\ scopec s1 = scopec s
+  | _ => True
+  end.
+Proof.
+  intros I Hh Hsd Hfr. unfold send_nowait.
+  destruct (hclosed s h) eqn:Hc; [cbn; auto|].
+  destruct (Nat.eqb_spec (open_recv s) 0) as [Hor|Hor]; [cbn; auto|].
+  assert (Hos : open_send s <> 0) by (rewrite (I_cs s I); eapply count_open_pos; eauto).
+  pose proof (pop_live_spec s (receivers s)) as Hpl.
+  destruct (pop_live s (receivers s)) as [[[e t]|] rest].
+  - destruct Hpl as (pre & Hr & Hnp & Hpre). cbn [fst snd].
+    assert (I' : Inv (set_receivers s ((e, t) :: rest))) by (eapply drop_prefix_inv; eauto).
+    assert (K : Inv (hand_over (set_receivers s ((e, t) :: rest)) rest e x)).
+    { eapply serve_head_inv; [exact I'|reflexivity|exact Hnp|exact Hfr]. }
+    split; [exact K|]. cbn. rewrite !in_app_iff. cbn. tauto.
+  - destruct Hpl as (-> & Hall).
+    assert (I' : Inv (set_receivers s [])).
+    { eapply (drop_prefix_inv s (receivers s) []); [exact I|now rewrite app_nil_r|exact Hall]. }
+    destruct (xlt (length (buffer s)) (maxb s)) eqn:Hlt; cbn [fst snd].
+    + assert (K : Inv (buffer_item (set_receivers s []) x)).
+      { apply buffer_item_inv; auto. }
+      split; [exact K|]. cbn. rewrite !in_app_iff. cbn. tauto.
+    + split; [exact I'|]. cbn. auto 10.
+Qed.
+
+Lemma recv_nowait_inv s h :
+  Inv s ->
+  let s1 := fst (recv_nowait s h) in
+  Inv s1 /\
+  match snd (recv_nowait s h) with
+  | RWouldBlock =>
+      buffer s1 = [] /\ senders s1 = [] /\ open_send s1 <> 0 /\
+      phase_of s1 = phase_of s /\ mustc s1 = mustc s /\ scopec s1 = scopec s
+  | _ => True
+  end.
+Proof.
+  intros I. unfold recv_nowait. destruct (hclosed s h); [cbn; auto|].
+  unfold rn_move. destruct (senders s) as [|[e y] r] eqn:Hs.
+  - unfold rn_pop. destruct (buffer s) as [|x b] eqn:Hb.
+    + destruct (Nat.eqb_spec (open_send s) 0); cbn; auto 10.
+    + cbn [fst snd]. split; [|exact Logic.I]. apply pop_only_inv; assumption.
+  - unfold rn_pop. cbn [buffer set_fut set_buffer set_senders].
+    destruct (buffer s ++ [y]) as [|x b] eqn:Hb; [destruct (buffer s); discriminate|].
+    cbn [fst snd]. split; [|exact Logic.I].
+    apply (move_pop_inv s e y r x b I Hs Hb).
+Qed.
+
+(* ---------- one step, every reachable state ---------- *)
+Lemma is_idle_true p : is_idle p = true <-> p = Idle.
+Proof. destruct p; cbn; split; congruence. Qed.
+
+Lemma valid_h_true s h sd : valid_h s h sd = true <-> h < nh s /\ hside s h = sd.
+Proof. unfold valid_h. rewrite andb_true_iff, Nat.ltb_lt, side_eqb_eq. tauto. Qed.
+
+Lemma fresh_after_nitem s x : Inv s -> nitem s <= x -> fresh_item (set_nitem s (S x)) x.
+Proof.
+  intros I Hx. refine (conj _ (conj _ _)); cbn.
+  - lia.
+  - intros H. apply (I_fresh s I) in H. lia.
+  - intros t h H. apply (I_ck s I) in H. lia.
+Qed.
+
+Lemma fresh_after_finish s t h x : Inv s -> phase_of s t = SendCk h x -> fresh_item (finish s t) x.
+Proof.
+  intros I Hp. destruct (I_ck s I t h x Hp) as [H1 H2]. refine (conj H1 (conj H2 _)). cbn.
+  intros t0 h0 H. destruct (Nat.eq_dec t0 t) as [->|Hn].
+  - rewrite upd_same in H. discriminate.
+  - rewrite upd_other in H by assumption. apply Hn. eapply (I_ckinj s I); eauto.
+Qed.
+
+Lemma step_inv s o : Inv s -> Inv (fst (step s o)).
+Proof.
+  intros I. destruct o as [t h x|t h|t h x|t h|h|h|t|t|t|t]; cbn [step].
+  - (* SendNowait *)
+    destruct (is_idle (phase_of s t)) eqn:Ei; cbn [negb orb fst]; [|exact I].
+    destruct (valid_h s h SSend) eqn:Ev; cbn [negb orb fst]; [|exact I].
+    destruct (Nat.ltb_spec x (nitem s)) as [Hx|Hx]; cbn [fst]; [exact I|].
+    apply valid_h_true in Ev. destruct Ev as [Hh Hsd].
+    assert (I0 : Inv (set_nitem s (S x))) by (apply set_nitem_inv; [exact I|lia]).
+    pose proof (send_nowait_inv (set_nitem s (S x)) h x I0 Hh Hsd (fresh_after_nitem s x I Hx)) as [I1 Hr].
+    destruct (send_nowait (set_nitem s (S x)) h x) as [s1 r]. cbn [fst snd] in *.
+    destruct r; cbn [ack]; try exact I1. apply add_acked_inv; assumption.
+  - (* RecvNowait *)
+    destruct (is_idle (phase_of s t)) eqn:Ei; cbn [negb orb fst]; [|exact I].
+    destruct (valid_h s h SRecv) eqn:Ev; cbn [negb orb fst]; [|exact I].
+    apply (recv_nowait_inv s h I).
+  - (* Send *)
+    destruct (is_idle (phase_of s t)) eqn:Ei; cbn [negb orb fst]; [|exact I].
+    destruct (valid_h s h SSend) eqn:Ev; cbn [negb orb fst]; [|exact I].
+    destruct (Nat.ltb_spec x (nitem s)) as [Hx|Hx]; cbn [fst]; [exact I|].
+    apply valid_h_true in Ev. destruct Ev as [Hh Hsd]. apply is_idle_true in Ei.
+    apply begin_send_inv; assumption.
+  - (* Recv *)
+    destruct (is_idle (phase_of s t)) eqn:Ei; cbn [negb orb fst]; [|exact I].
+    destruct (valid_h s h SRecv) eqn:Ev; cbn [negb orb fst]; [|exact I].
+    apply is_idle_true in Ei. apply begin_recv_inv; assumption.
+  - (* Clone *)
+    destruct (Nat.ltb_spec h (nh s)) as [Hh|Hh]; cbn [negb fst]; [|exact I].
+    destruct (hclosed s h) eqn:Hc; cbn [fst]; [exact I|]. apply do_clone_inv; assumption.
+  - (* Close *)
+    destruct (Nat.ltb_spec h (nh s)) as [Hh|Hh]; cbn [negb fst]; [|exact I].
+    destruct (hclosed s h) eqn:Hc; cbn [fst]; [exact I|]. apply do_close_inv; assumption.
+  - (* Resume *)
+    destruct (phase_of s t) as [|h x|e x|h|e] eqn:Ep; [exact I| | | |].
+    + (* SendCk *)
+      assert (If : Inv (finish s t)) by (apply finish_ck_inv; [exact I|rewrite Ep; reflexivity]).
+      destruct (mustc s t); [exact If|].
+      destruct (I_ckh s I t h x Ep) as [Hh Hsd].
+      pose proof (send_nowait_inv (finish s t) h x If Hh Hsd (fresh_after_finish s t h x I Ep)) as [I1 Hr].
+      destruct (send_nowait (finish s t) h x) as [s1 r]. cbn [fst snd] in *.
+      destruct r; cbn [ack fst]; try exact I1.
+      * apply add_acked_inv; assumption.
+      * destruct Hr as (H1 & H2 & H3 & H4 & H5 & H6 & H7 & H8).
+        apply enq_sender_inv; auto.
+        -- rewrite H6. cbn. apply upd_same.
+        -- rewrite H7. cbn. apply upd_same.
+        -- rewrite H8. cbn. apply upd_same.
+    + (* SendWait *)
+      assert (Hdrop : fut s e <> FPending -> Inv (finish (drop_sender s e x) t)).
+      { intros Hf. unfold drop_sender. destruct (has_key e (senders s)) eqn:Hk.
+        - apply (finish_sw_present_inv s t e x I Ep Hf Hk).
+        - apply (finish_sw_absent_inv s t e x I Ep Hf Hk). }
+      destruct (fut s e) eqn:Ef; [exact I| |].
+      * destruct (mustc s t); [apply Hdrop; discriminate|].
+        destruct (has_key e (senders s)) eqn:Hk; [apply Hdrop; discriminate|].
+        cbn [fst]. apply add_acked_inv.
+        -- apply (finish_sw_absent_inv s t e x I Ep); [rewrite Ef; discriminate|exact Hk].
+        -- cbn. destruct (I_sw s I t e x Ep) as [H|H]; [|exact H].
+           apply in_has_key in H. congruence.
+      * apply Hdrop; discriminate.
+    + (* RecvCk *)
+      assert (If : Inv (finish s t)) by (apply finish_ck_inv; [exact I|rewrite Ep; reflexivity]).
+      destruct (mustc s t); [exact If|].
+      pose proof (recv_nowait_inv (finish s t) h If) as [I1 Hr].
+      destruct (recv_nowait (finish s t) h) as [s1 r]. cbn [fst snd] in *.
+      destruct r; cbn [fst]; try exact I1.
+      destruct Hr as (H1 & H2 & H3 & H6 & H7 & H8).
+      apply enq_receiver_inv; auto.
+      * rewrite H6. cbn. apply upd_same.
+      * rewrite H7. cbn. apply upd_same.
+      * rewrite H8. cbn. apply upd_same.
+    + (* RecvWait *)
+      assert (Hgen : fut s e <> FPending ->
+                Inv (fst (let s1 := pop_receiver s e in
+                          if is_cancelled (fut s e) || mustc s t then (finish (lose s1 e) t, RCancelled)
+                          else match slot s e with
+                               | Some x => (finish (give s1 e x) t, RItem x)
+                               | None => (finish s1 t, REndOfStream)
+                               end))).
+      { intros Hf. cbn zeta.
+        assert (I1 : Inv (pop_receiver s e)) by (apply (pop_receiver_inv s t e I Ep Hf)).
+        assert (Hp1 : phase_of (pop_receiver s e) t = RecvWait e) by exact Ep.
+        assert (Hf1 : fut (pop_receiver s e) e <> FPending) by exact Hf.
+        assert (Hk1 : ~ In e (map fst (receivers (pop_receiver s e)))) by (cbn; apply del_key_gone, (I_rnd s I)).
+        destruct (is_cancelled (fut s e) || mustc s t); cbn [fst].
+        - unfold lose. cbn [slot pop_receiver set_receivers].
+          destruct (slot s e) as [x|] eqn:Es.
+          + apply (finish_rw_inv (pop_receiver s e) t e (del_key e (inflight s)) (returned s) (lost s ++ [x]) I1 Hp1 Hf1 Hk1);
+              [|reflexivity]. cbn. rewrite Es. right. auto.
+          + assert (Hd : inflight s = del_key e (inflight s)).
+            { symmetry. apply del_key_absent. intros H. apply in_map_iff in H.
+              destruct H as ([e0 x0] & E & H). cbn in E. subst e0. apply (I_infl s I) in H.
+              destruct H as [H _]. congruence. }
+            apply (finish_rw_inv (pop_receiver s e) t e (inflight s) (returned s) (lost s) I1 Hp1 Hf1 Hk1);
+              [|exact Hd]. cbn. rewrite Es. auto.
+        - destruct (slot s e) as [x|] eqn:Es; cbn [fst].
+          + apply (finish_rw_inv (pop_receiver s e) t e (del_key e (inflight s)) (returned s ++ [x]) (lost s) I1 Hp1 Hf1 Hk1);
+              [|reflexivity]. cbn. rewrite Es. left. auto.
+          + assert (Hd : inflight s = del_key e (inflight s)).
+            { symmetry. apply del_key_absent. intros H. apply in_map_iff in H.
+              destruct H as ([e0 x0] & E & H). cbn in E. subst e0. apply (I_infl s I) in H.
+              destruct H as [H _]. congruence. }
+            apply (finish_rw_inv (pop_receiver s e) t e (inflight s) (returned s) (lost s) I1 Hp1 Hf1 Hk1);
+              [|exact Hd]. cbn. rewrite Es. auto. }
+      destruct (fut s e) eqn:Ef; [exact I| |]; apply Hgen; discriminate.
+  - (* Cancel *)
+    destruct (is_idle (phase_of s t)); cbn [fst]; [exact I|]. apply task_cancel_inv, I.
+  - (* ScopeCancel *)
+    destruct (is_idle (phase_of s t)); cbn [fst]; [exact I|].
+    destruct (scopec s t); cbn [fst]; [exact I|]. apply scope_cancel_inv, I.
+  - exact I.
+Qed.
+
+Theorem reachable_inv m ops : Inv (final step (init m) ops).
+Proof. apply final_inv; [apply step_inv|apply inv_init]. Qed.
